@@ -1,5 +1,6 @@
 //! Correspondence harness for the Lean model of public-awesome/launchpad (see /verif/DESIGN.md, /verif/docs/HARNESS.md).
 pub mod boxes;
 pub mod core;
+pub mod minters;
 pub mod world;
 pub use crate::core::*;
